@@ -117,6 +117,43 @@ fn run_chunk(buf: &[u8]) -> String {
     }
 }
 
+/// C18: parse the history buffers, then the probe, on ONE Request/Response value and header array; compare the probe's
+/// outcome with the same probe on a fresh value over a fresh array of the same current length.
+fn run_hist(is_req: bool, flags: u32, cap: usize, bufs: &[Vec<u8>]) -> String {
+    let c = cfg(flags);
+    let (hist, probe) = bufs.split_at(bufs.len() - 1);
+    let probe: &[u8] = &probe[0];
+    let mut arr = sentinels(); let mut arr2 = sentinels();
+    if is_req {
+        let mut req = Request::new(&mut arr[..cap]);
+        for h in hist { let _ = c.parse_request(&mut req, h); }
+        let len_now = req.headers.len();
+        let r1 = c.parse_request(&mut req, probe);
+        let mut fresh = Request::new(&mut arr2[..len_now]);
+        let r2 = c.parse_request(&mut fresh, probe);
+        let mut d = String::new();
+        if r1 != r2 { d = format!("status {:?} vs fresh {:?}", r1, r2); }
+        else if let Ok(Status::Complete(_)) = r1 {
+            if req.method != fresh.method || req.path != fresh.path || req.version != fresh.version { d = format!("fields {:?}/{:?}/{:?} vs fresh {:?}/{:?}/{:?}", req.method, req.path, req.version, fresh.method, fresh.path, fresh.version); }
+            else if req.headers.len() != fresh.headers.len() || req.headers.iter().zip(fresh.headers.iter()).any(|(a, b)| a != b) { d = "headers differ".into(); }
+        }
+        return format!("{{\"status\":\"H\",\"n\":0,\"differs\":{}}}", if d.is_empty() { "null".to_string() } else { format!("{:?}", d) });
+    }
+    let mut resp = Response::new(&mut arr[..cap]);
+    for h in hist { let _ = c.parse_response(&mut resp, h); }
+    let len_now = resp.headers.len();
+    let r1 = c.parse_response(&mut resp, probe);
+    let mut fresh = Response::new(&mut arr2[..len_now]);
+    let r2 = c.parse_response(&mut fresh, probe);
+    let mut d = String::new();
+    if r1 != r2 { d = format!("status {:?} vs fresh {:?}", r1, r2); }
+    else if let Ok(Status::Complete(_)) = r1 {
+        if resp.version != fresh.version || resp.code != fresh.code || resp.reason != fresh.reason { d = format!("fields {:?}/{:?}/{:?} vs fresh {:?}/{:?}/{:?}", resp.version, resp.code, resp.reason, fresh.version, fresh.code, fresh.reason); }
+        else if resp.headers.len() != fresh.headers.len() || resp.headers.iter().zip(fresh.headers.iter()).any(|(a, b)| a != b) { d = "headers differ".into(); }
+    }
+    format!("{{\"status\":\"H\",\"n\":0,\"differs\":{}}}", if d.is_empty() { "null".to_string() } else { format!("{:?}", d) })
+}
+
 fn kind_name(k: u8) -> &'static str {
     match k { 100 => "C", 101 => "P", 0 => "E:HeaderName", 1 => "E:HeaderValue", 2 => "E:NewLine", 3 => "E:Status",
               4 => "E:Token", 5 => "E:TooManyHeaders", 6 => "E:Version", 7 => "E:InvalidChunkSize", _ => "?" }
@@ -174,6 +211,15 @@ fn main() {
         let p: Vec<&str> = line.split_whitespace().collect();
         if p.len() < 3 { continue; }
         let entry = p[0].to_string(); let flags: u32 = p[1].parse().unwrap_or(0); let cap: usize = p[2].parse().unwrap_or(0);
+        if entry.starts_with("hist_") {
+            let bufs: Vec<Vec<u8>> = (if p.len() > 3 { p[3] } else { "" }).split('-').map(unhex).collect();
+            let is_req = entry == "hist_req";
+            let res = panic::catch_unwind(panic::AssertUnwindSafe(|| run_hist(is_req, flags, cap.min(MAXCAP), &bufs)));
+            let imp = match res { Ok(s) => s, Err(_) => "{\"status\":\"PANIC\",\"n\":0,\"differs\":\"panic\"}".into() };
+            let _ = writeln!(out, "{{\"impl\":{},\"ref\":{{}}}}", imp);
+            let _ = out.flush();
+            continue;
+        }
         let data = unhex(if p.len() > 3 { p[3] } else { "" });
         // exact-size heap allocation so that an over-read is at least adjacent to foreign memory
         let boxed: Box<[u8]> = data.into_boxed_slice();
